@@ -70,8 +70,9 @@ claim("C02", "Loop contracts of solve_one / BacktrackSolver.solve: each search r
 claim("C03", "Loop contracts of BacktrackSolver.optimize / optimize_and_queue (both directions): after each improving solution the solver is reset to the root, the objective view bound is set just past the incumbent (through the offset), "
       "the incumbent stays inside the declared domain, the loop measure decreases; decrease_max / increase_min contracts; MultiprocessingSolver.optimize keeps the extremal message. Optimality w.r.t. the solution set is checked by the bounded engine suite.",
       "contract-based deductive verification + bounded engine suite", level="other")
-claim("C04", "decreases clauses discharged for the optimisation loop and the reducers; for-loops of all functions under contract are bounded by construction; unroll-mode exhaustion for the while loops of lexicographic_leq at arities <= 6. "
-      "BC/shaving/search measures and the Hall-interval pointer loops are covered by bounded suites with a per-call watchdog.",
+claim("C04", "decreases clauses discharged for: the propagation loop of bound_consistency_algorithm (lexicographic measure: total size of the current box, number of queued propagators — for ANY propagators satisfying the interface), "
+      "the shaving loop (domains left to scan, bounds left to try, total size), the optimisation loop, the reducers; for-loops of all functions under contract are bounded by construction; unroll-mode exhaustion for the while loops of lexicographic_leq up to 5 pairs. "
+      "The search loop of solve_one (multiset measure) and the Hall-interval pointer loops are covered by bounded suites with a per-call watchdog.",
       "contract-based deductive verification (decreases) + bounded suites with watchdog", level="other")
 claim("C10", "shave_bound contract (stack height restored, only the probed bound may move and only by one, it moves iff the probe's propagation pass returned INCONSISTENT, watchers of the moved bound are queued, flag rows and lower levels untouched) and "
       "shaving_consistency_algorithm proved to satisfy the same ConsistencyAlg interface contract as plain BC (so every caller verified against the interface is verified for shaving).",
